@@ -163,6 +163,10 @@ func (s *Spec) Action(k int, ts bool) string {
 	r := s.Rules[k-1]
 	var sb strings.Builder
 	fmt.Fprintf(&sb, "{ verifReduce(%d)", k)
+	if s.NTTag[r.Lhs] != "" && r.Style == 2 && ts {
+		// a TypeScript value has no zero default: the action states it
+		sb.WriteString("; $$ = 0")
+	}
 	if s.NTTag[r.Lhs] != "" && r.Style != 2 {
 		fmt.Fprintf(&sb, "; $$ = %d", r.K0)
 		if r.Style == 1 {
@@ -276,6 +280,31 @@ func (s *Spec) Render(o RenderOpts) string {
 	return sb.String()
 }
 
+const TSPrologue = "\n\"use strict\";\n"
+const TSUnion = "\n\tval :number;\n\talt :number;\n"
+const TSEpilogue = `
+var verifTok :number[] = [];
+var verifVal :number[] = [];
+var verifLog :number[] = [];
+var verifRequests = 0;
+function verifReduce(k :number) { verifLog.push(k) }
+function GetToken(input :string, model:{ValType :ValType, pos :number}) :number {
+	verifRequests++
+	let i = model.pos
+	model.pos = i + 1
+	if (i >= verifTok.length) {
+		return -1
+	}
+	model.ValType = new ValType()
+	model.ValType.val = verifVal[i]
+	return verifTok[i]
+}
+`
+
+func (s *Spec) TSText() string {
+	return s.Render(RenderOpts{TS: true, Prologue: TSPrologue, Epilogue: TSEpilogue, Union: TSUnion})
+}
+
 func (s *Spec) GoText() string {
 	return s.Render(RenderOpts{Prologue: GoPrologue, Epilogue: GoEpilogue, Union: GoUnion})
 }
@@ -348,6 +377,16 @@ func Fixed() []*Spec {
 	add(Expr("expr_right", []PrecLine{{"left", []string{"'+'"}}, {"right", []string{"'^'"}}}, []byte{'+', '^'}, false))
 	add(Expr("expr_nonassoc", []PrecLine{{"nonassoc", []string{"'<'"}}, {"left", []string{"'+'"}}}, []byte{'<', '+'}, false))
 
+	// the %prec alternative first: later alternatives must not inherit its annotation
+	{
+		s := Expr("expr_unary_first", []PrecLine{{"left", []string{"'+'"}}, {"left", []string{"'*'"}}, {"right", []string{"UMINUS"}}}, []byte{'+', '*'}, false)
+		s.Toks = append(s.Toks, Tok{Name: "UMINUS", Decl: "prec"}, Tok{Char: '-'})
+		s.Rules = rules("E: '-' E %prec UMINUS | E '+' E | E '*' E | '(' E ')' | NUM")
+		for k := range s.Rules {
+			s.Rules[k].Coef = nil
+		}
+		add(s)
+	}
 	// unambiguous E/T/F
 	add(&Spec{Name: "etf", Tags: []string{"lalr1"},
 		Toks:  []Tok{named("NUM", 301), lit('+'), lit('*'), lit('('), lit(')')},
@@ -409,6 +448,11 @@ func Fixed() []*Spec {
 		Rules: rules("S: A | B", "A: 'x'", "B: 'x'"),
 		NTTag: allVal("S", "A", "B")})
 
+	// names that differ only in case; automatic token numbers
+	add(&Spec{Name: "case_names", Tags: []string{"lalr1"},
+		Toks:  []Tok{named("NUM", 0), named("List", 0), lit(',')},
+		Rules: rules("list: num | list ',' num | List", "num: NUM"),
+		NTTag: allVal("list", "num")})
 	// start symbol named "start", no %start; auto-numbered tokens
 	add(&Spec{Name: "auto_tokens", Tags: []string{"lalr1"}, NoStartDecl: true,
 		Toks:  []Tok{named("AA", 0), named("BB", 0), {Name: "CC", Num: 5, Tag: "val"}, lit('z')},
